@@ -1851,3 +1851,19 @@ package ice
 //@   requires[C09,C13] @context_checked_out vdc != nil && !pooled(vdc)
 //@ func mergeStoredAndRemapSegment
 //@   requires[C09,C13] @context_checked_out vdc != nil && !pooled(vdc)
+//@
+//@ // ---- C06/C02: the re-encode visitor files each visited value under the merged id of the field
+//@ // it was visited for, after the values already collected for that field, and keeps going ----
+//@ func mergeStoredAndRemapSegment$1
+//@   let fid = fieldsMap[field] - 1
+//@   ensures[C02,C06] @value_filed_under_its_field result0 && len(vals[fid]) == old(len(vals[fid])) + 1 && vals[fid][len(vals[fid]) - 1] == value
+//@
+//@ // ---- C11 (builder): the CRC recorded for a built segment is the writer's running CRC after the
+//@ // last section (convert has returned), i.e. the CRC-32 of everything written through it ----
+//@ ghostvar cvdone int
+//@ func (*interim).convert
+//@   ghostset cvdone = s
+//@   ensures[C11] cvdone == s
+//@ func newWithChunkMode
+//@   at call:(*countHashWriter).Sum32#0 lemma[C11] cvdone == s && result0 == s.w.crc && s.w.crc == crcUpd(wseed(s.w), out(s.w), 0, outlen(s.w)) && wseed(s.w) == 0
+//@   at store:footer.crc#0 lemma[C11] footer.crc == s.w.crc && cvdone == s
